@@ -233,6 +233,19 @@ def run_ro(spec, ctx):
         m.st(t >= 0.25)
         objval -= 0.25
     m.st(x == x0)
+    xm = None
+    if spec['seed'] % 3 == 0:
+        # a variable array with one type per entry ('CIC', 'BCI', ...), pinned to integers at
+        # its integer entries and to fractions at its continuous ones: reads return the values
+        # of exactly these entries
+        mr = np.random.default_rng(spec['seed'] + 5)
+        vt = ''.join(mr.choice(list('CCIB'), size=int(mr.integers(2, 5))))
+        if 'C' in vt and vt != 'C' * len(vt):
+            xm0 = np.array([np.round(mr.uniform(-3, 3), 2) + 0.25 if t_ == 'C' else
+                            float(mr.integers(-3, 4)) if t_ == 'I' else float(mr.integers(0, 2))
+                            for t_ in vt])
+            xm = m.dvar(len(vt), vt)
+            m.st(xm == xm0)
     if spec['rules'] and spec['seed'] % 2 == 0:
         # a first solve while the rules are still free, with every kind of read; the reads after
         # the real solve below must not see anything remembered from this one
@@ -278,6 +291,11 @@ def run_ro(spec, ctx):
     q.eq('model.get', m.get(), objval)
     q.eq('x.get', x.get(), x0)
     q.eq('x()', x(), x0)
+    if xm is not None:
+        ctx.count('mixed_type_arrays')
+        q.eq('mixed-type x.get', lambda: xm.get(), xm0)
+        q.eq('mixed-type x()', lambda: xm(), xm0)
+        q.eq('mixed-type slice.get', lambda: xm[1:].get(), xm0[1:])
     if shape != ():
         for _ in range(3):
             idx = tuple(int(rng.integers(0, s)) if rng.random() < 0.5 else
